@@ -112,6 +112,8 @@ MATRIX = {
     "recursive-type-compound-left-variable-right": ("let q = ('n p) | p;\nlet p = {};\nres / on get -> <q>;\n", 1),
     "recursive-type-variable-left-compound-right": ("let q = p | ('n p);\nlet p = {};\nres / on get -> <q>;\n", 1),
     "recursive-type-through-a-function-result": ("let h x = 'k x;\nlet q = (h q) | q;\nres / on get -> <{}>;\n", 1),
+    "higher-order-repeated-variable": ("let f x y = x | y;\nlet app g = g num {};\nlet h = app f;\nres / on get -> <{}>;\n", 1),
+    "higher-order-consistent": ("let f x y = x | y;\nlet app g = g num str;\nlet h = app f;\nres / on get -> <h>;\n", 0),
     "two-parameter-function-ok": ("let f x y = x & y;\nres / on get -> <f {} { 'a num }>;\n", 0),
 }
 
